@@ -67,6 +67,8 @@ def possible_values(t, st, om):
         if t.is_const():
             return {t.const_value()}
         return ("number",)
+    if isinstance(t, App) and t.op in ("str", "cat", "join", "fmt", "repr"):
+        return ("string",)
     return None
 
 
@@ -190,6 +192,12 @@ def check_c10(ctx, led, v):
                     continue
                 vals = possible_values(xv, st2, om)
                 if vals is None:
+                    raise AnalysisError("C10.shape", "cannot enumerate the possible values of %s: %r" % (k, xv), f.node, om.module)
+                if vals == ("string",):
+                    rn = resolve(schema, node)
+                    if rn.get("type") == "number":
+                        viol("C10.validate", ck + " type", where, "%s is emitted as a string, %s expects a number" % (k, sname))
+                        continue
                     raise AnalysisError("C10.shape", "cannot enumerate the possible values of %s: %r" % (k, xv), f.node, om.module)
                 if vals == ("number",):
                     rn = resolve(schema, node)
